@@ -50,6 +50,17 @@ def misplaced_arguments(ctx: Ctx, files: set[str] | None):
                         continue
                     bad = (p, ta)
                     break
+            if bad is None and len(b) >= 2:
+                # crossed-over pair by name tokens: `f(later, earlier)` into (earlier_mapping, later_mapping)
+                def toks(x: str) -> set[str]:
+                    return {w for w in x.lower().strip("_").split("_") if len(w) > 2}
+
+                items = [(p, _term(a)) for p, a in b.items() if _term(a)]
+                for i, (p1, a1) in enumerate(items):
+                    for p2, a2 in items[i + 1:]:
+                        t1, t2 = toks(a1), toks(a2)
+                        if t1 and t2 and t1 != t2 and t1 <= toks(p2) and t2 <= toks(p1) and not (t1 <= toks(p1)) and not (t2 <= toks(p2)):
+                            bad = (p1, a1)
             yield f, c, t, bad
 
 
@@ -118,3 +129,49 @@ def _make_dead(prop: str):
 for _i in range(1, 21):
     _p = f"C{_i:02d}"
     rule(_p)(_make_dead(_p))
+
+
+# ------------------------------------------------------------------------------------------------ paired views of a Duration
+
+FLOOR_VIEW = {"_floor_days", "_nanosecond_of_floor_day"}
+TRUNC_VIEW = {"days", "nanosecond_of_day"}
+
+
+def check_duration_views(ctx: Ctx, rr: RuleResult) -> None:
+    """A Duration offers two decompositions: (floor days, nanosecond of floor day >= 0) and (days truncated towards zero, signed
+    nanosecond of day).  They agree for non-negative durations and differ by one day below zero.  A single expression that
+    takes the day part from one view and the time part from the other (of the same duration) builds a value that is a day off for
+    every instant before the epoch with a non-zero time of day."""
+    for f in sorted(set(ctx.M.func_of_node.values()), key=lambda x: x.qual):
+        if isinstance(f.node, ast.Lambda) or "_compatibility" in f.mod.rel:
+            continue
+        for st in own_nodes(f.node):
+            if not isinstance(st, (ast.Assign, ast.AnnAssign, ast.Return, ast.Expr, ast.AugAssign)):
+                continue
+            uses: dict[str, set[str]] = {}
+            for n in ast.walk(st):
+                if isinstance(n, ast.Attribute) and n.attr in FLOOR_VIEW | TRUNC_VIEW:
+                    uses.setdefault(unparse(n.value), set()).add(n.attr)
+            for base, at in uses.items():
+                if not (at & FLOOR_VIEW or at & TRUNC_VIEW) or len(at) < 2:
+                    continue
+                rr.inst()
+                if at & FLOOR_VIEW and at & TRUNC_VIEW:
+                    rr.fail(f.qual, f"one expression combines `{base}.{sorted(at & TRUNC_VIEW)[0]}` (truncated view) with `{base}.{sorted(at & FLOOR_VIEW)[0]}` (floor view): for negative durations with a time part the two views are one day apart", ctx.loc(f, st))
+                else:
+                    rr.ok({"fn": f.qual, "view": "floor" if at & FLOOR_VIEW else "truncated"})
+
+
+def _make_views(prop: str, rid: str):
+    def r_views(ctx: Ctx) -> RuleResult:
+        rr = RuleResult(rid, "day part and time-of-day part of a Duration are taken from the same decomposition (floor/floor or truncated/truncated) within one expression", min_instances=2)
+        check_duration_views(ctx, rr)
+        return rr
+
+    r_views.__name__ = f"r{prop[1:]}_duration_views"
+    return r_views
+
+
+rule("C03")(_make_views("C03", "R03.12"))
+rule("C11")(_make_views("C11", "R11.10"))
+rule("C15")(_make_views("C15", "R15.8"))
